@@ -443,6 +443,10 @@ def metadata_edits(md, toplevel=False):
         if 'kernelspec' in md:
             m = cp(md); m['kernelspec']['display_name'] = 'Py (env)'; out.append(('kspec-name', m))
             m = cp(md); m['kernelspec']['display_name'] = 'Other kernel'; out.append(('kspec-name:b', m))
+            if EXTRA[0]:
+                # other keys of the same container: several decisions whose diffs patch the same key of /metadata
+                m = cp(md); m['kernelspec']['language'] = 'py'; out.append(('kspec-lang', m))
+                m = cp(md); m['kernelspec']['name'] = 'other'; out.append(('kspec-id', m))
         if 'language_info' in md:
             m = cp(md); m['language_info']['version'] = '3.12'; out.append(('lang-version', m))
             m = cp(md); del m['language_info']; out.append(('lang-unset', m))
@@ -652,7 +656,7 @@ FOCUS = {
     'source': ('src@0:repl0:a', 'src@0:repl0:b', 'src@0:repl2:a', 'src@0:repl2:b', 'src@0:del1', 'src@0:ins1', 'src@0:ins1:b', 'src@0:tweak1', 'src@0:tweak1:b', 'src@0:comment1',
                'src@0:append-unterminated', 'src@0:terminate'),
     'meta': ('cellmeta@2:tags+extra', 'cellmeta@2:tags+other', 'cellmeta@2:collapsed-flip', 'cellmeta@2:custom=a1', 'cellmeta@2:custom=a2', 'cellmeta@2:level-2',
-             'nbmeta:kspec-name', 'nbmeta:kspec-name:b', 'nbmeta:tags=new', 'nbmeta:x=lists'),
+             'nbmeta:kspec-name', 'nbmeta:kspec-name:b', 'nbmeta:kspec-lang', 'nbmeta:kspec-id', 'nbmeta:tags=new', 'nbmeta:x=lists'),
     'cellmix0': ('ec@0:7', 'out@0:oec1', 'src@0:tweak1', 'src@0:repl2:a', 'cell-delete@0', 'rerun@0', 'cellmeta@0:custom=a1', 'cell-retype@0:raw', 'id@0:renamed',
                  'out@0:data1:plain-tweak', 'out@0:stream0:tweak', 'out@0:stream0:first'),
     'cellmix2': ('cellmeta@2:collapsed-flip', 'src@2:tweak0', 'src@2:repl0:a', 'ec@2:7', 'cell-delete@2', 'cellmeta@2:tags+extra', 'out@2:append:Ostream',
